@@ -215,7 +215,7 @@ def sanitizer_kind(text):
     return "sanitizer-report"
 
 
-def findings_of(rep, plan):
+def findings_of(rep, plan, binary=None):
     """List of findings (dict cls, props, kind, oracle, detail) for one replay outcome."""
     out = []
     oc = rep["outcome"]
@@ -246,13 +246,24 @@ def findings_of(rep, plan):
             props.add("C18")
             lines = [l for l in (rep.get("text") or "").splitlines() if "ERROR" in l or "runtime error" in l]
             detail = lines[0].strip() if lines else ""
-        # a crash that needs an earlier call on the same object also breaks reusability
-        if plan is not None and opi is not None and opi >= 0 and kind in OP_PROP and kind != "MERKLE":
+            import re as _re
+            detail = _re.sub(r"==\d+==", "", detail)
+            detail = _re.sub(r"0x[0-9a-f]{6,}", "0x..", detail).strip()
+        # a crash that needs an earlier call on the same object also breaks reusability (C19): decided
+        # by executing the crashing op alone on a fresh object -- if that runs clean, history caused it
+        if plan is not None and opi is not None and opi >= 0 and kind in OP_PROP and kind != "MERKLE" and binary is not None:
             ops = plan["plan"]
             if opi < len(ops):
                 slot = ops[opi].get("obj", -1)
                 if slot >= 0 and any(o.get("obj", -1) == slot and o["op"] in ("NTT", "INTT", "ROUNDTRIP", "EXTEND") for o in ops[:opi]):
-                    props.add("C19?")
+                    solo = copy.deepcopy(plan)
+                    solo["plan"] = [copy.deepcopy(ops[opi])]
+                    solo["plan"][0]["obj"] = -1
+                    # same ambient ICVs as the op saw are not reconstructed: the host ops before it are kept
+                    solo["plan"] = [o for o in ops[:opi] if o["op"] == "HOST_ICV"] + solo["plan"]
+                    r2 = run_replay(binary, solo)
+                    if r2["outcome"] in ("ok", "violation"):
+                        props.add("C19")
         if kind in ("END", "DELETE_OBJECT"):
             props.add("C18")
         out.append(dict(cls=cls, props=sorted(props), kind=kind, oracle="process outcome", detail=detail, op=opi))
@@ -263,9 +274,9 @@ def signature(f):
     return (f["cls"], f["kind"], f["oracle"])
 
 
-def has_finding(rep, plan, prop, sig):
-    for f in findings_of(rep, plan):
-        if signature(f) == sig and (prop in f["props"] or prop + "?" in f["props"]):
+def has_finding(rep, plan, prop, sig, binary=None):
+    for f in findings_of(rep, plan, binary):
+        if signature(f) == sig and prop in f["props"]:
             return f
     return None
 
@@ -405,7 +416,7 @@ def minimise(binary, plan, prop, sig, budget_runs=1500, budget_s=120):
                 tried.add(key)
                 runs += 1
                 rep = run_replay(binary, cand)
-                if has_finding(rep, cand, prop, sig):
+                if has_finding(rep, cand, prop, sig, binary):
                     cur = cand
                     progress = True
                     accepted = True
@@ -419,7 +430,7 @@ def minimise(binary, plan, prop, sig, budget_runs=1500, budget_s=120):
     if any(o.get("sim", {}).get("strategy") not in (None, "serial-identity") for o in cur["plan"]):
         rep = run_replay(binary, cur, record=True)
         ex = rep["result"].get("explicit_plan") if rep.get("result") else None
-        if ex and not rep["result"].get("recorded_truncated") and has_finding(run_replay(binary, ex), ex, prop, sig):
+        if ex and not rep["result"].get("recorded_truncated") and has_finding(run_replay(binary, ex), ex, prop, sig, binary):
             for k in ("property", "flavour"):
                 if k in cur:
                     ex[k] = cur[k]
@@ -438,7 +449,7 @@ def minimise(binary, plan, prop, sig, budget_runs=1500, budget_s=120):
                         cs = sch[:j] + sch[j + chunk:]
                         cand["plan"][i]["sim"]["schedule"] = cs
                         runs += 1
-                        if has_finding(run_replay(binary, cand), cand, prop, sig):
+                        if has_finding(run_replay(binary, cand), cand, prop, sig, binary):
                             sch = cs
                             cur = cand
                             changed = True
@@ -501,12 +512,12 @@ def replay_mode(prop, path):
         harness_error("replay needs AVX-512 hardware")
     bins, _ = build_all([flavour])
     rep = run_replay_file(bins[flavour], path)
-    fs = findings_of(rep, plan)
+    fs = findings_of(rep, plan, bins[flavour])
     log("replay outcome: %s" % rep["outcome"])
     hit = False
     for f in fs:
         log("  %s props=%s op#%s %s: %s -- %s" % (f["cls"], ",".join(f["props"]), f["op"], f["kind"], f["oracle"], f["detail"]))
-        if prop in f["props"] or prop + "?" in f["props"]:
+        if prop in f["props"]:
             hit = True
     if rep["outcome"] == "sanitizer":
         log(rep["text"][-1500:])
@@ -603,14 +614,14 @@ def main():
                 plan = json.loads(g.stdout)
             if fs is None:
                 rep = run_replay(sw.binary, plan)
-                fs = findings_of(rep, plan)
+                fs = findings_of(rep, plan, sw.binary)
                 if not fs:
                     harness_error("run %d of %s died in the sweep but its plan replays clean (seed %d)" % (i, sw.flavour, s))
-            mine = [f for f in fs if prop in f["props"] or prop + "?" in f["props"]]
+            mine = [f for f in fs if prop in f["props"]]
             for f in fs:
                 if f not in mine:
                     for p_ in f["props"]:
-                        other_props.setdefault(p_.rstrip("?"), set()).add(f["cls"])
+                        other_props.setdefault(p_, set()).add(f["cls"])
             if not mine:
                 continue
             total_viol_runs += 1
@@ -623,14 +634,14 @@ def main():
                 if len(handled) > MAX_MINIMISE:
                     continue
                 # gate: the same seed twice more in fresh processes, same finding
-                ok2 = all(has_finding(run_replay(sw.binary, plan), plan, prop, signature(f)) for _ in range(2))
+                ok2 = all(has_finding(run_replay(sw.binary, plan), plan, prop, signature(f), sw.binary) for _ in range(2))
                 if not ok2:
                     harness_error("violation %s of run %d (%s, seed %d) does not reproduce from its plan" % (f["cls"], i, sw.flavour, s))
                 small, runs = minimise(sw.binary, plan, prop, signature(f), budget_s=60 if tier == "quick" else 240)
                 small["property"] = prop
                 small["flavour"] = sw.flavour
                 rep = run_replay(sw.binary, small)
-                ff = has_finding(rep, small, prop, signature(f))
+                ff = has_finding(rep, small, prop, signature(f), sw.binary)
                 if not ff:
                     harness_error("minimised plan of run %d does not reproduce" % i)
                 small["outcome"] = ff["cls"]
@@ -642,7 +653,7 @@ def main():
                     json.dump(small, fo, indent=1)
                 # fresh-process replay of the file itself
                 rep2 = run_replay_file(sw.binary, path)
-                if not has_finding(rep2, small, prop, signature(f)):
+                if not has_finding(rep2, small, prop, signature(f), sw.binary):
                     harness_error("replay file %s does not reproduce" % path)
                 kn = [e for e in known if known_match(e, prop, ff, small)]
                 if kn:
@@ -650,9 +661,10 @@ def main():
                     log("KNOWN-FINDING: property=%s %s" % (prop, kn[0].get("what", ff["cls"])))
                     os.unlink(path)
                 else:
-                    violations.append(dict(path=path, cls=ff["cls"], report=small["report"], flavour=sw.flavour, ops=len(small["plan"])))
                     log("violation: %s [%s] %s" % (ff["cls"], sw.flavour, small["report"]))
-                    log("VIOLATION property=%s replay=%s" % (prop, path))
+                    if not any(v["path"] == path for v in violations):
+                        log("VIOLATION property=%s replay=%s" % (prop, path))
+                    violations.append(dict(path=path, cls=ff["cls"], report=small["report"], flavour=sw.flavour, ops=len(small["plan"])))
     for p_, clss in sorted(other_props.items()):
         log("NOTE: runs of this sweep also showed findings that belong to %s (%s); they are reported by that property's check" % (p_, ", ".join(sorted(clss))))
 
